@@ -218,9 +218,20 @@ CLAIMED["C12"] = _e(
     "loss was processed; no setter/getter callbacks in the event model; one query per PUT.",
     "DESIGN.md §3 C12",
 )
+CLAIMED["C13"] = _e(
+    "Lean 4 proof over the same event-driven system model with protocol objects distinct from registry entries: nothing "
+    "held for a lost connection, no write after close/loss, fresh reconnect, idle sweep only after 90 h of inactivity "
+    "(every request refreshes activity), for every trace; differential correspondence and transport/driver-map oracle on "
+    "real protocol objects for every termination cause (peer close, h11 error, bad frame, idle sweep, server stop)",
+    "Kernel-checked for every history (clean/silent need no reuse hypothesis); ~970 scripts per quick run combining "
+    "termination causes with pending events, delayed responses, prepared writes and address reuse.",
+    "asyncio contract (single connection_lost, no data after close); address reuse only after the previous loss was "
+    "processed (the RST-then-reconnect race is recorded as an observation outside C13).",
+    "DESIGN.md §3 C13",
+)
 
 NOT_YET = "not yet built in this round (model + theorems + correspondence pending; see DESIGN.md §7 build order)"
-NA = {"C13": "built (model, 8 theorems, correspondence, oracle; repair committed in /repo) but its event model is being re-synchronised with the C03 guard on POST /resource; not claimed until the check is quiet on the unchanged tree"}
+NA = {}
 
 
 def main():
